@@ -198,6 +198,7 @@ def jobs(tier, seed):
         ("h_adapt_to_trimming", {}),
         ("h_clean_by_points", {"same_tomo": True}),
         ("h_clean_by_points", {"same_tomo": False, "inplace": False}),
+        ("h_clean_by_points", {"same_tomo": False, "npoints": 1}),     # a tomogram without any reference point
         ("h_clean_by_tomo_mask", {"mask": "m222a", "same_tomo": True}),
         ("h_clean_by_tomo_mask", {"mask": "m322", "same_tomo": False, "outside_first": False, "outside_kind": "low"}),
     ]
